@@ -23,7 +23,22 @@ def log(*a):
     print(*a, flush=True)
 
 
+def _prune_stale_meta(max_age_s=6 * 3600):
+    """TLC metadirs of runs that were killed are left behind; remove old ones (never recent ones:
+    other checks may be running)."""
+    base = os.path.join(RUNS, "_tlcmeta")
+    try:
+        now = time.time()
+        for n in os.listdir(base):
+            p = os.path.join(base, n)
+            if now - os.path.getmtime(p) > max_age_s:
+                shutil.rmtree(p, ignore_errors=True)
+    except OSError:
+        pass
+
+
 def rundir(prop):
+    _prune_stale_meta()
     d = os.path.join(RUNS, prop + os.environ.get("VERIF_RUNS_SUFFIX", ""))
     shutil.rmtree(d, ignore_errors=True)
     os.makedirs(d, exist_ok=True)
